@@ -230,7 +230,9 @@ def merge(results):
         m['coverage'] = m['coverage'] or r.get('coverage')
         m['wall_s'] = max(m['wall_s'], r.get('wall_s', 0.0))
         for k, v in (r.get('extra') or {}).items():
-            if isinstance(v, (int, float)) and isinstance(m['extra'].get(k, 0), (int, float)):
+            if k.startswith('max_') and isinstance(v, (int, float)):
+                m['extra'][k] = max(m['extra'].get(k, v), v)
+            elif isinstance(v, (int, float)) and isinstance(m['extra'].get(k, 0), (int, float)):
                 m['extra'][k] = m['extra'].get(k, 0) + v
             else:
                 m['extra'].setdefault(k, v)
